@@ -88,6 +88,40 @@ fn main() {
                 std::process::exit(3);
             }
         }
+        "fuzz-decode" => {
+            // vfy fuzz-decode <libFuzzer artifact> <replay.json>: exit 1 if the case violates C18
+            limits();
+            runner::init_panic_hook();
+            let data = std::fs::read(args.get(2).map(|s| s.as_str()).unwrap_or("")).unwrap_or_default();
+            let out = args.get(3).cloned().unwrap_or_default();
+            let handle = std::thread::Builder::new()
+                .name(runner::CASE_THREAD.into())
+                .stack_size(256 << 20)
+                .spawn(move || {
+                    vfy::props::c18::ensure_confined(&[]);
+                    vfy::props::c18::fuzz_one(&data)
+                })
+                .expect("spawn");
+            let r = handle.join();
+            fsx::cleanup_base();
+            match r {
+                Ok(Ok(())) => {
+                    println!("fuzz artifact does not reproduce on the optimised build");
+                    std::process::exit(0);
+                }
+                Ok(Err(m)) => {
+                    let (msg, case) = m.split_once("\nCASE ").unwrap_or((&m, "null"));
+                    let case: Value = serde_json::from_str(case).unwrap_or(Value::Null);
+                    let sig = msg.split(": ").next().unwrap_or("C18").to_string();
+                    let body = serde_json::json!({"property": "C18", "tier": "thorough", "signature": sig, "message": msg, "case": case, "found_by": "libFuzzer"});
+                    let _ = std::fs::write(&out, serde_json::to_vec_pretty(&body).unwrap());
+                    println!("SIGNATURE {sig}");
+                    println!("MESSAGE {}", msg.replace('\n', " | "));
+                    std::process::exit(1);
+                }
+                Err(_) => std::process::exit(3),
+            }
+        }
         "child-run" => {
             if std::env::var("VFY_NO_LIMITS").is_err() {
                 limits();
